@@ -28,7 +28,7 @@ PLANS = {
             "thorough": [("enum", "d4", 16, 4, []), ("book", "disciplined", 10000, 120, []), ("book", "toggle", 4000, 120, []), ("book", "modify", 4000, 120, []),
                          ("book", "wide", 2000, 100, []), ("market", "plain", 1000, 100, []), ("book", "mixed", 3000, 120, ["--levels", "1,3,10"])]},
     "C04": {"quick": [("enum", "d3", 4, 3, []), ("book", "redundant", 1500, 80, []), ("book", "toggle", 600, 60, []), ("book", "modify", 450, 60, []), ("book", "mixed", 600, 80, ["--levels", "1,3,10"]),
-                      ("book", "wide", 300, 60, [])],
+                      ("book", "wide", 300, 60, []), ("market", "plain", 180, 80, [])],
             "thorough": [("enum", "d3", 4, 3, []), ("enum", "d3tick1", 4, 3, ["--tick", "1"]), ("book", "redundant", 8000, 150, []), ("book", "toggle", 3000, 120, []), ("book", "disciplined", 3000, 120, []),
                          ("book", "modify", 3000, 120, []), ("book", "mixed", 3000, 120, ["--levels", "1,3,10"])]},
     "C05": {"quick": [("enum", "d3ties", 4, 3, ["--ties", "1"]), ("book", "ties", 1500, 60, []), ("book", "ties", 600, 60, ["--prices", "2"]),
@@ -618,7 +618,10 @@ SPECS = {
                 a=lambda f: (f.kind == "A" and (f.audit == "C13" or (f.audit == "C08" and "no_trades_while_disabled" in f.fields)))
                             or (f.kind == "R" and f.profile in ("toggle", "mixed") and bool(cfields(f)))
                             # a market whose book stops behaving like a stand-alone book in a history with a disabled period
-                            or (f.hkind == "market" and f.kind == "A" and f.audit == "SH"),
+                            or (f.hkind == "market" and f.kind == "A" and f.audit == "SH")
+                            # what the book publishes about an operation executed WHILE trading is disabled ("limit orders and re-priced
+                            # orders simply rest at their price")
+                            or (f.tr == "0" and f.hkind == "book" and (f.kind == "R" or (f.kind == "A" and f.audit == "C02")) and bool(f.fields & VIEWS)),
                 needs=lambda lines: any(l.startswith("O trading 0") or l.split()[3:5] == ["trading", "0"] or (l.startswith("H ") and " book " in l and l.split()[6] == "0")
                                         or (l.startswith("H ") and " market " in l and l.split()[6] == "0") for l in lines),
                 # C13's third sentence ("once trading is enabled again every subsequently arriving or re-priced order matches
